@@ -52,8 +52,8 @@ type objT struct {
 
 func body(w *run.Worker) {
 	ctx := context.Background()
-	w.Cases("seq", w.N(480, 20000), func(c *run.Case) { history(ctx, w, c, false) })
-	w.Cases("conctouch", w.N(120, 3000), func(c *run.Case) { history(ctx, w, c, true) })
+	w.Cases("seq", w.N(960, 20000), func(c *run.Case) { history(ctx, w, c, false) })
+	w.Cases("conctouch", w.N(240, 3000), func(c *run.Case) { history(ctx, w, c, true) })
 }
 
 func history(ctx context.Context, w *run.Worker, c *run.Case, concTouch bool) {
